@@ -1441,6 +1441,11 @@ func (ro *RedisOutput) bisyncStartPoint(ctx context.Context, runIDs []string) (S
 	if err != nil {
 		return sp, 0, false, err
 	}
+	// GetCheckpoint leaves the connection in whichever database it visited last; the recovery
+	// records (latest, frontier, journal) live in db 0
+	if err := redispkg.SelectDB(cli, 0); err != nil {
+		return sp, 0, false, err
+	}
 	if cpi == nil || cpi.RunId == "?" {
 		ro.logger.Infof("bisync startpoint empty: checkpoint(%s), runIDs(%v)", checkpointName, runIDs)
 		return sp, 0, false, nil
